@@ -378,11 +378,13 @@ func lexToken(l *lexer) stateFn {
 			l.emit(TokenStar)
 			return lexToken
 		case r == '/':
-			if l.peek() == '/' {
-				l.backup()
+			// peek overwrites the width of the last rune read, so step
+			// back over the one byte '/' explicitly instead of using backup.
+			comment := l.peek() == '/'
+			l.pos -= len("/")
+			if comment {
 				return lexComment
 			}
-			l.backup()
 			return lexRegex
 		case r == eof:
 			l.emit(TokenEOF)
